@@ -123,3 +123,10 @@ Definition spec_case (fb : N) (pat alpha : list N) (bits : list bool) : N :=
   if bits_eqb (map (glob_spec no_wide (gflags_of_bits fb) pat) (strings_upto alpha 3)) bits then 0 else 2.
 Definition spec_bits (fb : N) (pat alpha : list N) : list bool :=
   map (glob_spec no_wide (gflags_of_bits fb) pat) (strings_upto alpha 3).
+
+(* --- C18 code leg: QuoteMeta / HasMeta ---------------------------------------------------- *)
+Definition meta_case (s q : list N) (hasq hass : bool) : N :=
+  if negb (str_eqb (quote_meta_glob s) q) then 1
+  else if negb (Bool.eqb (has_meta q) hasq) then 2
+  else if negb (Bool.eqb (has_meta s) hass) then 2
+  else 0.
